@@ -772,6 +772,83 @@ fn main() {
     println(a, f(«arg:bool|true»), uses_global(), params_shadow(«arg:str|"p"»));
 }
 `},
+	{Name: "scope_exit", Construct: "scoping", Main: `
+fn helper(own_param: int) -> int {
+    «tail:int|own_param»
+}
+
+fn main() {
+    let outer = 1;
+    {
+        let inner = 2;
+        println(inner);
+    }
+    for loop_var in 0..2 {
+        println(loop_var);
+    }
+    try {
+        println("t");
+    } catch caught {
+        println(caught.message);
+    }
+    let clo = fn(clo_param: int) -> int { clo_param };
+    if outer > 0 {
+        let in_then = 3;
+        println(in_then);
+    } else {
+        let in_else = 4;
+        println(in_else);
+    }
+    match outer {
+        1 => { let in_arm = 5; println(in_arm); }
+        _ => {}
+    }
+    type LocalT = { v: int };
+    let lt: LocalT = new { v: 1 };
+    println(«mut:unknown-name|outer¦inner¦loop_var¦caught¦clo_param¦in_then¦in_else¦in_arm¦own_param¦later», clo(1), helper(2), lt);
+    let later = 6;
+    println(later);
+}
+
+fn other() -> int {
+    let v: «mut:unknown-name|int¦LocalT» = 1;
+    «tail:int|v»
+}
+`},
+	{Name: "local_dups", Construct: "duplicates", Main: `
+$Single = { v: int };
+
+fn main() {
+    «dup:type|type Local = { a: int };»
+    let l: Local = new { a: 1 };
+    let s = «ty:str|fmt(«mut:arity|"{} {}", 1, l¦»)»;
+    let o = «ty:{a:int,b:{c:int,d:str}}|new { a: 1, b: new { «dup:field|c: 2», d: "x" } }»;
+    type Nested = { p: { «dup:tfield|q: int», r: str } };
+    let n: Nested = new { p: new { q: 1, r: "r" } };
+    let f = fn(«dup:param|x: int», y: int) -> int { x + y };
+    println(s, o, n, f(1, 2), $Single.v);
+}
+
+fn uses(«dup:param|s: $Single», n: int) -> int {
+    «tail:int|«opd:int|s.v» + «opd:int|n»»
+}
+`},
+	{Name: "fn_assign", Construct: "fn-assignment", Tags: []string{TagFnAssign}, Main: `
+fn one() -> int { 1 }
+fn two() -> int { 2 }
+
+fn main() {
+    let f = fn() -> int { 1 };
+    f = «asg:fn()->int|fn() -> int { 2 }»;
+    let g = one;
+    g = «asg:fn()->int|two»;
+    let o = new { cb: one };
+    o.cb = «asg:fn()->int|two»;
+    let fs = [one];
+    fs[0] = «asg:fn()->int|two»;
+    println(f(), g(), o.cb(), fs[0]());
+}
+`},
 	{Name: "event_fns", Construct: "event-functions", Main: `
 import trigger minute from triggers;
 
